@@ -118,8 +118,34 @@ def check_obj(acc, kind, case, s, where="result"):
     return t
 
 
+def adjacency_family():
+    """Bound pairs aimed at the shortening heuristics: the right bound is the left release (zero-padded 0-2
+    segments) bumped by one at some position, itself zero-padded 0-2 segments; suffixes and epochs varied."""
+    bases = [(1,), (1, 2), (1, 2, 3), (0,), (0, 9), (2, 0), (1, 0), (1, 9), (1, 10), (3, 7)]
+    sufs = ["", ".post1", ".dev0", "a1"]
+    seen = set()
+    for base in bases:
+        for padl in range(3):
+            left_rel = list(base) + [0] * padl
+            # the bump may sit beyond the left bound's written length (virtual zeros): <1 || >=1.1.0
+            work = left_rel + [0] * (3 - padl)
+            for pos in range(len(work)):
+                bumped = work[:pos] + [work[pos] + 1]
+                for padr in range(3):
+                    right_rel = bumped + [0] * padr
+                    for sl in sufs:
+                        for sr in sufs:
+                            for epl, epr in (("", ""), ("1!", "1!"), ("", "1!")):
+                                l = epl + ".".join(map(str, left_rel)) + sl
+                                r = epr + ".".join(map(str, right_rel)) + sr
+                                if (l, r) not in seen:
+                                    seen.add((l, r))
+                                    yield l, r
+
+
 def tasks(tier, seed):
     t = [(MOD, "exh", (sh, 16)) for sh in range(16)]
+    t += [(MOD, "adj", (sh, 16)) for sh in range(16)]
     n = 4000 if tier == "quick" else 80000
     shards = 16 if tier == "quick" else 64
     for i in range(shards):
@@ -152,6 +178,21 @@ def exh(acc, shard, nshards):
     if shard == 0:
         for s in (RangeSpecifier(min=Version("1.2"), max=Version("2"), include_min=True), UnionSpecifier((RangeSpecifier(max=Version("1.2.0")), RangeSpecifier(min=Version("1.3.0"), include_min=True)))):
             acc.sample({"obj": brief(s), "str": str(s), "reparsed": brief(parse_version_specifier(str(s)))}, layer)
+
+
+def adj(acc, shard, nshards):
+    layer = "L1-adjacent-releases"
+    acc.exhaustive_layers.add(layer)
+    mod = sys.modules[MOD]
+    for i, (l, r) in enumerate(adjacency_family()):
+        if i % nshards != shard:
+            continue
+        a, b = Version(l), Version(r)
+        if not a < b:
+            continue
+        for im, iM in itertools.product((False, True), repeat=2):
+            harness.process(mod, acc, "obj", {"obj": describe(RangeSpecifier(min=a, max=b, include_min=im, include_max=iM))}, layer, isolate=False)
+            harness.process(mod, acc, "obj", {"obj": describe(UnionSpecifier((RangeSpecifier(max=a, include_max=im), RangeSpecifier(min=b, include_min=iM))))}, layer, isolate=False)
 
 
 def strategy(tier):
